@@ -418,6 +418,34 @@ Section Prims.
     - unfold acceptable_sig in A. apply andb_true_iff in A as [A _]. exact A.
   Qed.
 
+  (* the guard on parameter types is necessary: an accepted function whose first parameter is not
+     param_safe panics in reflect.Call on EVERY call that passes an argument (F-C17-4) *)
+  Theorem unsafe_first_param_always_panics tbl idx s body a rest :
+    nindex tbl idx = NOk (s, body) -> wf_sig s -> forallb valid_native_type (eff_params s) = true ->
+    (variadic s = true \/ zlen (a :: rest) <= zlen (params s)) ->
+    param_safe (param_ty s 0) = false ->
+    call_native tbl idx (a :: rest) = NPanic PkCallAssign.
+  Proof.
+    intros Hf W A Har Hus. rewrite (call_native_builds tbl idx s body (a :: rest) Hf W A Har).
+    unfold finish, reflect_call.
+    pose proof (spec_values_len s (a :: rest)) as L. pose proof (zlen_nonneg rest) as Hr.
+    rewrite zlen_cons in *.
+    assert (Hcount : (if variadic s then zlen (spec_values s (a :: rest)) <? zlen (params s) - 1
+                      else negb (zlen (spec_values s (a :: rest)) =? zlen (params s))) = false).
+    { rewrite L. unfold min_in. destruct (variadic s) eqn:V.
+      - apply Z.ltb_ge. lia.
+      - destruct Har as [Hv|Hle]; [discriminate|]. apply negb_false_iff, Z.eqb_eq. lia. }
+    rewrite Hcount. unfold spec_values. cbn [spec_args app].
+    assert (Hnv : variadic s = false -> 0 < zlen (params s)).
+    { intros V. destruct Har as [Hv|Hle]; [congruence|lia]. }
+    rewrite check_assign_first_bad; [reflexivity|exact W|exact Hnv|].
+    rewrite gty_conv.
+    assert (V0 : valid_native_type (param_ty s 0) = true).
+    { apply param_ty_valid; try assumption; [lia|apply wf_variadic_nonempty; exact W]. }
+    destruct (assignable (plain_of (param_ty s 0)) (param_ty s 0)) eqn:E; [|reflexivity].
+    apply (assignable_plain_iff _ V0) in E. congruence.
+  Qed.
+
   (* what spec_values is, position by position *)
   Theorem spec_values_nth s args i :
     wf_sig s -> 0 <= i < Z.max (zlen args) (min_in s) ->
